@@ -474,8 +474,9 @@ def make_step(rec, env, cfg):
                             if hc == ocid and j != i:
                                 holders[j] = "invalid"
                                 iso.discard(j)
-                    if not exit_now:
-                        soft |= {c for c in open_before if w.owner.get(c) == w.using} | {ncid}
+                    # (the overlapping invalidation has completed by the time the creator returns: an exit-class fault
+                    # at a *later* driver call of the same checkout does not undo it)
+                    soft |= {c for c in open_before if w.owner.get(c) == w.using} | {ncid}
                 # ("tick_during": born[ncid] < epoch already marks it stale for the recycle check below)
             for (lk, lcid) in w.listener_fired:
                 hard.add(lcid)
